@@ -755,7 +755,7 @@ fn run_case(isa: &dyn Isa, g: Gen, r: &mut Rng, toy: bool) -> Case {
 
 /// hand-written regression programs (indices 0..N_FIXED): the minimised forms of past failures and of the
 /// situations the property names
-const N_FIXED: u64 = 10;
+const N_FIXED: u64 = 11;
 const N_FIXED_REAL: u64 = 8;
 fn fixed_toy(index: u64) -> Gen {
     use Toy::*;
@@ -783,7 +783,10 @@ fn fixed_toy(index: u64) -> Gen {
         8 => (0x1000, (0..20).map(|i| Add((i % 8) as u8, 1)).chain([Jcc(1, 0, -18), Halt]).collect(), 0, vec![], vec![]),
         // the function entry is a loop header; the loop is closed by a separate block ending in `jmp entry`
         // (one unguarded out-edge into a block with one in-edge: merge must not swallow the entry)
-        _ => (0x1010, vec![Add(0, 1), Jcc(0, 1, 3), Add(2, 1), Jmp(-3), Halt], 0, vec![], vec![]),
+        9 => (0x1010, vec![Add(0, 1), Jcc(0, 1, 3), Add(2, 1), Jmp(-3), Halt], 0, vec![], vec![]),
+        // a reachable unmapped address with a requested unguarded self edge: an empty block that loops silently
+        // (thorough seed 1 case 19634: the language checker used to answer `false` on silent cycles)
+        _ => (0x1000, vec![Jcc(0, 0, 2), Halt, Add(0, 1)], 0, vec![2], vec![(2, 2, None)]),
     };
     let bytes: Vec<u8> = ins.iter().flat_map(|i| i.encode()).collect();
     let mut mapped = vec![true; bytes.len()];
